@@ -469,17 +469,19 @@ Section BreachPhase.
 
   Lemma breach_uuid_loop_spec d us : forall t inv inv' t',
     Ext t -> D d -> (forall u, In u us -> fst u = d) ->
+    (forall u, In u us -> find_app (db_apps t0) u <> None) ->      (* the uuids were just loaded from the table *)
     breach_uuid_loop sc d us t inv = Ok inv' t' ->
     Ext t' /\ grows t t' /\ incl inv inv' /\
     (forall u, In u us -> exists a, find_app (db_apps t0) u = Some a /\ row_outcome t' inv' a) /\
     (forall u, In u inv' -> In u inv \/ (In u us /\ exists a, find_app (db_apps t0) u = Some a /\ row_invalid a)).
   Proof.
-    induction us as [|uuid us IH]; intros t inv inv' t' E HD Hd; cbn [breach_uuid_loop].
+    induction us as [|uuid us IH]; intros t inv inv' t' E HD Hd Hrows; cbn [breach_uuid_loop].
     - intros H. injection H as <- <-. split; [exact E|]. split; [apply grows_refl|]. split; [apply incl_refl|].
       split; [intros u []|intros u Hu; left; exact Hu].
     - assert (Happs : db_apps t0 = db_apps t) by apply (ext_core t E).
       rewrite <- Happs.
-      destruct (find_app (db_apps t0) uuid) as [a|] eqn:Ef; [|discriminate].
+      destruct (find_app (db_apps t0) uuid) as [a|] eqn:Ef; [|exfalso; apply (Hrows uuid (or_introl eq_refl)); exact Ef].
+      assert (Hrows' : forall u, In u us -> find_app (db_apps t0) u <> None) by (intros u Hi; apply Hrows; right; exact Hi).
       destruct (find_app_Some _ _ _ Ef) as [Hin Hu].
       assert (Hloc : d = a_loc a).
       { rewrite <- (Hd uuid (or_introl eq_refl)), <- Hu. reflexivity. }
@@ -490,7 +492,7 @@ Section BreachPhase.
         assert (HDa : D (a_loc a)) by (rewrite <- Hloc; exact HD).
         destruct (ext_handle t uuid a p s t1 E Ef HDa Edec Er) as [E1 [Hg1 [Hs Hans]]].
         intros Hloop. rewrite <- Hloc in Hloop.
-        destruct (IH t1 _ inv' t' E1 HD Hd' Hloop) as [E' [Hg' [Hincl [Hall Hinv]]]].
+        destruct (IH t1 _ inv' t' E1 HD Hd' Hrows' Hloop) as [E' [Hg' [Hincl [Hall Hinv]]]].
         split; [exact E'|]. split; [eapply grows_trans; eassumption|].
         assert (Hincl0 : incl inv inv').
         { intros x Hx. apply Hincl. destruct (status_rejected s); [apply in_or_app; left|]; exact Hx. }
@@ -505,7 +507,7 @@ Section BreachPhase.
           right. split; [left; reflexivity|]. exists a. split; [exact Ef|].
           unfold row_invalid. rewrite Edec, <- Hs. exact Hrej.
       + intros Hloop. rewrite <- Hloc in Hloop.
-        destruct (IH t _ inv' t' E HD Hd' Hloop) as [E' [Hg' [Hincl [Hall Hinv]]]].
+        destruct (IH t _ inv' t' E HD Hd' Hrows' Hloop) as [E' [Hg' [Hincl [Hall Hinv]]]].
         split; [exact E'|]. split; [exact Hg'|].
         split; [intros x Hx; apply Hincl, in_or_app; left; exact Hx|]. split.
         * intros u [<-|Hu']; [|apply Hall; exact Hu'].
@@ -534,8 +536,11 @@ Section BreachPhase.
       assert (Hus : forall u, In u us -> fst u = d).
       { intros u Hu. apply in_map_iff in Hu. destruct Hu as [a [<- Ha]]. apply filter_In in Ha.
         destruct Ha as [_ Ha]. apply N.eqb_eq in Ha. exact Ha. }
+      assert (Hrows : forall u, In u us -> find_app (db_apps t0) u <> None).
+      { intros u Hu. apply in_map_iff in Hu. destruct Hu as [a [<- Ha]]. apply filter_In in Ha. destruct Ha as [Ha _].
+        destruct (find_app_In _ _ Ha) as [a' Hf]. rewrite Hf. discriminate. }
       destruct (breach_uuid_loop sc d us t inv) as [inv1 t1|] eqn:El; cbn [bind]; [|discriminate].
-      destruct (breach_uuid_loop_spec d us t inv inv1 t1 E (HD d (or_introl eq_refl)) Hus El) as [E1 [Hg1 [Hincl1 [Hall1 Hinv1]]]].
+      destruct (breach_uuid_loop_spec d us t inv inv1 t1 E (HD d (or_introl eq_refl)) Hus Hrows El) as [E1 [Hg1 [Hincl1 [Hall1 Hinv1]]]].
       intros Hloop. destruct (IH t1 inv1 inv' t' E1 (fun x Hx => HD x (or_intror Hx)) Hloop) as [E' [Hg' [Hincl' [Hall' Hinv']]]].
       split; [exact E'|]. split; [eapply grows_trans; eassumption|].
       split; [intros x Hx; apply Hincl', Hincl1, Hx|]. split.
@@ -795,10 +800,19 @@ Lemma add_update_appointment_spec t u uuid blen r t1 :
   gk_add_update_appointment t u uuid blen = Ok r t1 ->
   same_but_users t t1 /\ (r = None -> t1 = t).
 Proof.
-  unfold gk_add_update_appointment. destruct (gk_get t u) as [ui|]; [|discriminate].
+  unfold gk_add_update_appointment. destruct (gk_get t u) as [ui|]; [|intros H; injection H as <- <-; split; [repeat split|reflexivity]].
   match goal with |- context [if ?c then _ else _] => destruct c end; intros H; injection H as <- <-.
   - split; [repeat split|discriminate].
   - split; [repeat split|reflexivity].
+Qed.
+
+(* the charge rewrites a row of table users, it never adds or removes one *)
+Lemma charge_keeps_rows t u uuid blen r t1 :
+  gk_add_update_appointment t u uuid blen = Ok r t1 -> forall v, amem (db_users t1) v = amem (db_users t) v.
+Proof.
+  unfold gk_add_update_appointment. destruct (gk_get t u) as [ui|]; [|intros H; injection H as <- <-; reflexivity].
+  match goal with |- context [if ?c then _ else _] => destruct c end; intros H; injection H as <- <-; intros v; [|reflexivity].
+  unfold p_set_user, db_update_user. cbn [db_users set_db_users gk_put set_gk_users]. apply amem_update_user.
 Qed.
 
 (* the appointments table after store_appointment(a) *)
@@ -809,11 +823,19 @@ Definition store_row (apps : list app) (a : app) : list app :=
   end.
 
 Lemma store_appointment_spec t a t' :
+  w_store_ok t a = true ->
   w_store_appointment t a = Ok tt t' -> t' = set_db_apps t (store_row (db_apps t) a).
 Proof.
-  unfold w_store_appointment, store_row, p_update_app, p_insert_app.
-  destruct (find_app (db_apps t) (app_uuid a)); [intros H; injection H as <-; reflexivity|].
-  destruct (amem (db_users t) (a_user a)); [intros H; injection H as <-; reflexivity|discriminate].
+  unfold w_store_ok, w_store_appointment, store_row, p_update_app, p_insert_app.
+  destruct (find_app (db_apps t) (app_uuid a)); [intros _ H; injection H as <-; reflexivity|].
+  destruct (amem (db_users t) (a_user a)); [intros _ H; injection H as <-; reflexivity|discriminate].
+Qed.
+
+(* nothing is stored when the owner's row is gone *)
+Lemma store_appointment_unknown t a : w_store_ok t a = false -> w_store_appointment t a = Ok tt t.
+Proof.
+  unfold w_store_ok, w_store_appointment. destruct (find_app (db_apps t) (app_uuid a)); [discriminate|].
+  intros ->. reflexivity.
 Qed.
 
 Lemma find_app_map f apps u :
@@ -895,11 +917,20 @@ Proof.
   destruct (amem (gk_users t) v); [|discriminate]. intros H. injection H as ->. reflexivity.
 Qed.
 
-(* the shape of a successful add_appointment *)
+(* was the appointment stored (or dropped as undecryptable), or is its owner's row gone? *)
+Definition stored_flag (t t1 : tower) (loc : N) (b : blob) (a : app) : bool :=
+  match ti_get (w_cache t) loc with
+  | Some d => match decrypt b d with Some _ => w_store_ok t1 a | None => true end
+  | None => w_store_ok t1 a
+  end.
+
+(* the shape of add_appointment: refused with nothing changed; or accepted: charged, then stored / handed over;
+   or - only when the gatekeeper knows a user whose row is not in table users, which no reachable state
+   allows - charged and refused because the row cannot be stored *)
 Lemma w_add_appointment_inner sc t signer loc b delay sig r t' :
   w_add_appointment sc t signer loc b delay sig = Ok r t' ->
   (t' = t /\ match r with AddOk _ _ _ _ => False | _ => True end) \/
-  exists u ui av t1,
+  (exists u ui av t1,
     signer = Some u /\ gk_get t u = Some ui /\ gk_height t < u_expiry ui /\
     find_trk (db_trks t) (loc, u) = None /\
     same_but_users t t1 /\
@@ -907,29 +938,52 @@ Lemma w_add_appointment_inner sc t signer loc b delay sig r t' :
     (match ti_get (w_cache t) loc with
      | Some d => w_store_triggered sc t1 (mk_app loc u b delay sig (w_height t)) d
      | None => w_store_appointment t1 (mk_app loc u b delay sig (w_height t))
-     end) = Ok tt t'.
+     end) = Ok tt t' /\
+    stored_flag t t1 loc b (mk_app loc u b delay sig (w_height t)) = true) \/
+  (exists u t1,
+    signer = Some u /\ amem (gk_users t) u = true /\ amem (db_users t) u = false /\
+    same_but_users t t1 /\ t' = t1 /\ r = AddAuthOrSlots).
 Proof.
   unfold w_add_appointment.
   destruct (authenticate t signer) as [u|] eqn:Ea; [|intros H; injection H as <- <-; left; split; [reflexivity|exact I]].
-  apply authenticate_Some' in Ea.
-  destruct (gk_get t u) as [ui|] eqn:Eg; [|discriminate].
+  pose proof (authenticate_Some _ _ _ Ea) as [_ Hmem]. apply authenticate_Some' in Ea.
+  destruct (gk_get t u) as [ui|] eqn:Eg; [|intros H; injection H as <- <-; left; split; [reflexivity|exact I]].
   destruct (N.leb (u_expiry ui) (gk_height t)) eqn:El; [intros H; injection H as <- <-; left; split; [reflexivity|exact I]|].
   apply N.leb_gt in El.
   destruct (find_trk (db_trks t) (loc, u)) eqn:Ek; [intros H; injection H as <- <-; left; split; [reflexivity|exact I]|].
   destruct (gk_add_update_appointment t u (loc, u) (b_len b)) as [charged t1|] eqn:Ec; cbn [bind]; [|discriminate].
+  pose proof (charge_keeps_rows _ _ _ _ _ _ Ec) as Hrows.
   apply add_update_appointment_spec in Ec. destruct Ec as [Hsame Hnone].
   destruct charged as [av|]; [|intros H; injection H as <- <-; left; split; [apply Hnone; reflexivity|exact I]].
   assert (Hc : w_cache t = w_cache t1) by apply Hsame. rewrite <- Hc.
-  cbn [a_start].
-  match goal with |- bind ?X _ = _ -> _ => destruct X as [[] t2|] eqn:Est end; cbn [bind]; [|discriminate].
-  intros H. injection H as <- <-. right. exists u, ui, av, t1.
-  split; [exact Ea|]. split; [exact Eg|]. split; [exact El|]. split; [exact Ek|].
-  split; [exact Hsame|]. split; [reflexivity|exact Est].
+  cbn [a_start]. cbv zeta.
+  set (a := mk_app loc u b delay sig (w_height t)).
+  fold (stored_flag t t1 loc b a).
+  destruct (stored_flag t t1 loc b a) eqn:Esf.
+  - match goal with |- bind ?X _ = _ -> _ => destruct X as [[] t2|] eqn:Est end; cbn [bind]; [|discriminate].
+    intros H. injection H as <- <-. right. left. exists u, ui, av, t1.
+    split; [exact Ea|]. split; [exact Eg|]. split; [exact El|]. split; [exact Ek|].
+    split; [exact Hsame|]. split; [reflexivity|]. split; [exact Est|exact Esf].
+  - (* not stored: the owner's row is gone; nothing but the charge happened *)
+    assert (Hno : w_store_ok t1 a = false).
+    { unfold stored_flag in Esf. destruct (ti_get (w_cache t) loc) as [d|]; [destruct (decrypt b d); [exact Esf|discriminate]|exact Esf]. }
+    assert (Hst : (match ti_get (w_cache t) loc with
+                   | Some d => w_store_triggered sc t1 a d
+                   | None => w_store_appointment t1 a
+                   end) = Ok tt t1).
+    { unfold stored_flag in Esf. destruct (ti_get (w_cache t) loc) as [d|].
+      - unfold w_store_triggered. change (a_blob a) with b. destruct (decrypt b d); [rewrite Hno; reflexivity|discriminate].
+      - apply store_appointment_unknown. exact Hno. }
+    rewrite Hst. cbn [bind]. intros H. injection H as <- <-. right. right. exists u, t1.
+    split; [exact Ea|]. split; [exact Hmem|]. split; [|split; [exact Hsame|split; reflexivity]].
+    unfold w_store_ok in Hno. destruct (find_app (db_apps t1) (app_uuid a)); [discriminate|].
+    change (a_user a) with u in Hno. rewrite Hrows in Hno. exact Hno.
 Qed.
 
 (* store_triggered_appointment for a row that has no tracker yet *)
 Lemma store_triggered_spec sc t1 a d t' :
   find_trk (db_trks t1) (app_uuid a) = None ->
+  (decrypt (a_blob a) d <> None -> w_store_ok t1 a = true) ->
   w_store_triggered sc t1 a d = Ok tt t' ->
   same_but_rows t1 (set_rpc_log (set_car_memo t' (car_memo t1)) (rpc_log t1)) /\ w_height t' = w_height t1 /\
   others_kept t1 t' (app_uuid a) /\
@@ -945,10 +999,11 @@ Lemma store_triggered_spec sc t1 a d t' :
        find_app (db_apps t') (app_uuid a) = Some a /\ find_trk (db_trks t') (app_uuid a) = None)
   end.
 Proof.
-  intros Hnt. unfold w_store_triggered.
+  intros Hnt Hok. unfold w_store_triggered.
   destruct (decrypt (a_blob a) d) as [p|].
-  - destruct (w_store_appointment t1 a) as [[] t2|] eqn:Est; cbn [bind]; [|discriminate].
-    apply store_appointment_spec in Est. subst t2.
+  - assert (Hok' : w_store_ok t1 a = true) by (apply Hok; discriminate). rewrite Hok'.
+    destruct (w_store_appointment t1 a) as [[] t2|] eqn:Est; cbn [bind]; [|discriminate].
+    apply (store_appointment_spec _ _ _ Hok') in Est. subst t2.
     set (t2 := set_db_apps t1 (store_row (db_apps t1) a)).
     destruct (r_handle_breach sc t2 (app_uuid a) d p) as [s t3|] eqn:Er; cbn [bind]; [|discriminate].
     apply handle_breach_spec in Er. destruct Er as [Hs [Hc [Hl [Hm Hk]]]].
@@ -1024,6 +1079,7 @@ Qed.
    request is answered the penalty has been handled; what is left of the appointment afterwards
    is decided by the verdict on the penalty's txid. *)
 Theorem add_appointment_triggered sc t signer loc b delay sig d r t' :
+  (forall u, user_row_ok t u) ->
   ti_get (w_cache t) loc = Some d ->
   w_add_appointment sc t signer loc b delay sig = Ok r t' ->
   match r with
@@ -1046,10 +1102,10 @@ Theorem add_appointment_triggered sc t signer loc b delay sig d r t' :
   | _ => t' = t
   end.
 Proof.
-  intros Hc Hw. apply w_add_appointment_inner in Hw.
-  destruct Hw as [[-> Hr]|[u [ui [av [t1 [Hs [Hg [He [Hnt [Hsame [-> Hst]]]]]]]]]]].
+  intros Hrow Hc Hw. apply w_add_appointment_inner in Hw.
+  destruct Hw as [[-> Hr]|[[u [ui [av [t1 [Hs [Hg [He [Hnt [Hsame [-> [Hst Hok]]]]]]]]]]]|[u [t1 [_ [Hm [Hn _]]]]]]].
   - destruct r; [contradiction|reflexivity..].
-  - rewrite Hc in Hst. exists u. split; [exact Hs|]. split; [reflexivity|]. split; [reflexivity|].
+  - unfold stored_flag in Hok. rewrite Hc in Hst, Hok. exists u. split; [exact Hs|]. split; [reflexivity|]. split; [reflexivity|].
     cbv zeta. split; [exact Hnt|].
     unfold same_but_users in Hsame.
     assert (Hk1 : db_trks t = db_trks t1) by apply Hsame.
@@ -1057,7 +1113,9 @@ Proof.
     assert (Hl1 : rpc_log t = rpc_log t1) by apply Hsame.
     set (a := mk_app loc u b delay sig (w_height t)) in *.
     assert (Hnt1 : find_trk (db_trks t1) (app_uuid a) = None) by (rewrite <- Hk1; exact Hnt).
-    destruct (store_triggered_spec sc t1 a d t' Hnt1 Hst) as [_ [_ [Hoth Hcase]]].
+    assert (Hok1 : decrypt (a_blob a) d <> None -> w_store_ok t1 a = true).
+    { change (a_blob a) with b. destruct (decrypt b d); [intros _; exact Hok|intros H; contradiction]. }
+    destruct (store_triggered_spec sc t1 a d t' Hnt1 Hok1 Hst) as [_ [_ [Hoth Hcase]]].
     change (app_uuid a) with (loc, u) in *. change (a_blob a) with b in Hcase.
     split; [unfold others_kept in *; rewrite Ha1, Hk1; exact Hoth|].
     destruct (decrypt b d) as [p|].
@@ -1072,11 +1130,13 @@ Proof.
       destruct Hcase as [Hl [_ Hrest]]. split; [exact Hl|].
       split; [apply penalty_handled_of_events; exact Hl|exact Hrest].
     + rewrite Hl1. split; apply Hcase.
+  - rewrite (Hrow u Hm) in Hn. discriminate.
 Qed.
 
 (* C01, watch_until_triggered (first half): when the cache does not hold the locator the
    appointment is stored exactly as submitted and nothing else happens *)
 Theorem add_appointment_stored sc t signer loc b delay sig r t' :
+  (forall u, user_row_ok t u) ->
   ti_get (w_cache t) loc = None ->
   w_add_appointment sc t signer loc b delay sig = Ok r t' ->
   match r with
@@ -1088,11 +1148,13 @@ Theorem add_appointment_stored sc t signer loc b delay sig r t' :
   | _ => t' = t
   end.
 Proof.
-  intros Hc Hw. apply w_add_appointment_inner in Hw.
-  destruct Hw as [[-> Hr]|[u [ui [av [t1 [Hs [Hg [He [Hnt [Hsame [-> Hst]]]]]]]]]]].
+  intros Hrow Hc Hw. apply w_add_appointment_inner in Hw.
+  destruct Hw as [[-> Hr]|[[u [ui [av [t1 [Hs [Hg [He [Hnt [Hsame [-> [Hst Hok]]]]]]]]]]]|[u [t1 [_ [Hm [Hn _]]]]]]].
+  2: unfold stored_flag in Hok; rewrite Hc in Hst, Hok.
+  3: { rewrite (Hrow u Hm) in Hn. discriminate. }
   - destruct r; [contradiction|reflexivity..].
-  - rewrite Hc in Hst. exists u. split; [exact Hs|]. split; [reflexivity|]. split; [reflexivity|].
-    apply store_appointment_spec in Hst. subst t'. unfold same_but_users in Hsame.
+  - exists u. split; [exact Hs|]. split; [reflexivity|]. split; [reflexivity|].
+    apply (store_appointment_spec _ _ _ Hok) in Hst. subst t'. unfold same_but_users in Hsame.
     cbn [db_apps db_trks rpc_log car_memo set_db_apps].
     assert (Ha1 : db_apps t = db_apps t1) by apply Hsame.
     split; [rewrite find_app_store; change (app_uuid _) with (loc, u); rewrite uuid_eqb_refl; reflexivity|].
@@ -1115,8 +1177,9 @@ Lemma store_triggered_trks sc t1 a d t' :
               status_accepted (breach_status sc t1 p) = true.
 Proof.
   unfold w_store_triggered. destruct (decrypt (a_blob a) d) as [p|].
-  - destruct (w_store_appointment t1 a) as [[] t2|] eqn:Est; cbn [bind]; [|discriminate].
-    apply store_appointment_spec in Est. subst t2.
+  - destruct (w_store_ok t1 a) eqn:Eok; [|intros H; injection H as <-; intros k Hk; left; exact Hk].
+    destruct (w_store_appointment t1 a) as [[] t2|] eqn:Est; cbn [bind]; [|discriminate].
+    apply (store_appointment_spec _ _ _ Eok) in Est. subst t2.
     set (t2 := set_db_apps t1 (store_row (db_apps t1) a)).
     destruct (r_handle_breach sc t2 (app_uuid a) d p) as [s t3|] eqn:Er; cbn [bind]; [|discriminate].
     apply handle_breach_spec in Er. destruct Er as [Hs [_ [_ [_ Hk]]]].
@@ -1613,14 +1676,14 @@ Proof.
     destruct (w_add_appointment sc (fresh t) signer loc b delay sig) as [r t1|] eqn:Ew; cbn [wrap] in Hstep;
       injection Hstep as <- <-; [|destruct Hna].
     destruct (ti_get (w_cache t) loc) as [d|] eqn:Ec.
-    + pose proof (add_appointment_triggered sc (fresh t) signer loc b delay sig d r t1 Ec Ew) as H.
+    + pose proof (add_appointment_triggered sc (fresh t) signer loc b delay sig d r t1 (inv_user_rows (fresh t) (inv_fresh t HI)) Ec Ew) as H.
       destruct r; try (rewrite H; intros e []).
       destruct H as [u [Hs [_ [_ [_ [_ Hcase]]]]]]. subst signer.
       destruct (decrypt b d) as [p|] eqn:Ed; [|destruct Hcase as [_ ->]; intros e []].
       destruct Hcase as [Hl _]. rewrite Hl. cbn [rpc_log fresh set_rpc_log]. rewrite app_nil_r.
       intros e He. apply breach_events_tx in He. unfold just_rpc.
       destruct (r_kind e); [right|right; right; right; left]; exists u, loc, b, delay, sig, d; rewrite He; auto.
-    + pose proof (add_appointment_stored sc (fresh t) signer loc b delay sig r t1 Ec Ew) as H.
+    + pose proof (add_appointment_stored sc (fresh t) signer loc b delay sig r t1 (inv_user_rows (fresh t) (inv_fresh t HI)) Ec Ew) as H.
       destruct r; try (rewrite H; intros e []).
       destruct H as [u [_ [_ [_ [_ [_ [_ [-> _]]]]]]]]. intros e [].
   - destruct (get_unchanged le t sc signer loc) as [r Hr]. rewrite Hr in Hstep. injection Hstep as <- <-. intros e [].
@@ -1687,14 +1750,16 @@ Proof.
     destruct (w_add_appointment sc (fresh t) signer loc b delay sig) as [r t1|] eqn:Ew; cbn [wrap] in Hstep;
       injection Hstep as <- <-; [|destruct Hna].
     apply w_add_appointment_inner in Ew.
-    destruct Ew as [[-> _]|[u [ui [av [t2 [_ [_ [_ [_ [Hsu [_ Hst]]]]]]]]]]]; [apply Hsame; reflexivity|].
+    destruct Ew as [[-> _]|[[u [ui [av [t2 [_ [_ [_ [_ [Hsu [_ [Hst Hok]]]]]]]]]]]|[u [t2 [_ [_ [_ [Hsu [-> _]]]]]]]]];
+      [apply Hsame; reflexivity| |apply Hsame; symmetry; apply Hsu].
     unfold same_but_users in Hsu. cbn in Hsu.
     assert (Hk2 : db_trks t = db_trks t2) by apply Hsu.
+    unfold stored_flag in Hok.
     destruct (ti_get (w_cache (fresh t)) loc) as [d|].
     + destruct (store_triggered_trks sc t2 _ d t1 Hst k Hk) as [Hold|[p [_ [-> Hacc]]]].
       * rewrite <- Hk2 in Hold. exfalso. exact (find_trk_In _ _ Hold Hnone).
       * cbn [new_trk t_penalty]. rewrite <- Hacc. f_equal. apply breach_status_core; apply Hsu.
-    + apply store_appointment_spec in Hst. subst t1. apply Hsame. symmetry. exact Hk2.
+    + apply (store_appointment_spec _ _ _ Hok) in Hst. subst t1. apply Hsame. symmetry. exact Hk2.
   - destruct (get_unchanged le t sc signer loc) as [r Hr]. rewrite Hr in Hstep. injection Hstep as <- <-.
     apply Hsame. reflexivity.
   - destruct (getsub_unchanged le t sc signer) as [r Hr]. rewrite Hr in Hstep. injection Hstep as <- <-.
@@ -1799,18 +1864,22 @@ Lemma add_appointment_keeps_trks sc t signer loc b delay sig r t' :
   reorged t' = reorged t /\ forall k, In k (db_trks t) -> In k (db_trks t').
 Proof.
   intros Hw. apply w_add_appointment_inner in Hw.
-  destruct Hw as [[-> _]|[u [ui [av [t1 [_ [_ [_ [Hnt [Hsu [_ Hst]]]]]]]]]]]; [split; auto|].
+  destruct Hw as [[-> _]|[[u [ui [av [t1 [_ [_ [_ [Hnt [Hsu [_ [Hst Hok]]]]]]]]]]]|[u [t1 [_ [_ [_ [Hsu [-> _]]]]]]]]]; [split; auto| |].
+  2: { unfold same_but_users in Hsu. split; [symmetry; apply Hsu|]. intros k Hk. replace (db_trks t1) with (db_trks t) by apply Hsu. exact Hk. }
   unfold same_but_users in Hsu.
   assert (Hk1 : db_trks t = db_trks t1) by apply Hsu.
   assert (Hr1 : reorged t = reorged t1) by apply Hsu.
+  unfold stored_flag in Hok.
   destruct (ti_get (w_cache t) loc) as [d|].
   - set (a := mk_app loc u b delay sig (w_height t)) in *.
     assert (Hnt1 : find_trk (db_trks t1) (app_uuid a) = None) by (rewrite <- Hk1; exact Hnt).
-    destruct (store_triggered_spec sc t1 a d t' Hnt1 Hst) as [Hsr [_ [[_ Hoth] _]]].
+    assert (Hok1 : decrypt (a_blob a) d <> None -> w_store_ok t1 a = true).
+    { change (a_blob a) with b. destruct (decrypt b d); [intros _; exact Hok|intros H; contradiction]. }
+    destruct (store_triggered_spec sc t1 a d t' Hnt1 Hok1 Hst) as [Hsr [_ [[_ Hoth] _]]].
     split; [rewrite Hr1; symmetry; apply Hsr|].
     intros k Hk. rewrite Hk1 in Hk. apply Hoth; [|exact Hk].
     intros He. rewrite <- He in Hnt1. exact (find_trk_In _ _ Hk Hnt1).
-  - apply store_appointment_spec in Hst. subst t'. cbn. split; [symmetry; exact Hr1|].
+  - apply (store_appointment_spec _ _ _ Hok) in Hst. subst t'. cbn. split; [symmetry; exact Hr1|].
     intros k Hk. rewrite <- Hk1. exact Hk.
 Qed.
 
@@ -2073,9 +2142,9 @@ Proof.
                     | _ => t1 = fresh t
                     end).
     { destruct (ti_get (w_cache (fresh t)) loc) as [d|] eqn:Ec.
-      - pose proof (add_appointment_triggered sc (fresh t) signer loc b delay sig d r t1 Ec Ew) as H.
+      - pose proof (add_appointment_triggered sc (fresh t) signer loc b delay sig d r t1 (inv_user_rows (fresh t) (inv_fresh t HI)) Ec Ew) as H.
         destruct r; try exact H. destruct H as [u [Hs [_ [_ [_ [Hoth _]]]]]]. exists u. split; assumption.
-      - pose proof (add_appointment_stored sc (fresh t) signer loc b delay sig r t1 Ec Ew) as H.
+      - pose proof (add_appointment_stored sc (fresh t) signer loc b delay sig r t1 (inv_user_rows (fresh t) (inv_fresh t HI)) Ec Ew) as H.
         destruct r; try exact H. destruct H as [u [Hs [_ [_ [_ [Hoth _]]]]]]. exists u. split; assumption. }
     destruct r; try (left; rewrite Hcase; exact Ha).
     destruct Hcase as [u [-> [Hoth _]]].
@@ -2160,11 +2229,11 @@ Proof.
   induction us as [|uuid us IH]; intros t inv E HD Hd; cbn [breach_uuid_loop]; [exact E|].
   assert (Happs : db_apps t0 = db_apps t) by apply (ext_core sc t0 D t E).
   rewrite <- Happs.
-  destruct (find_app (db_apps t0) uuid) as [a|] eqn:Ef; [|exact E].
+  assert (Hd' : forall u, In u us -> fst u = d) by (intros u Hi; apply Hd; right; exact Hi).
+  destruct (find_app (db_apps t0) uuid) as [a|] eqn:Ef; [|apply IH; assumption].
   destruct (find_app_Some _ _ _ Ef) as [Hin Hu].
   assert (Hloc : d = a_loc a).
   { rewrite <- (Hd uuid (or_introl eq_refl)), <- Hu. reflexivity. }
-  assert (Hd' : forall u, In u us -> fst u = d) by (intros u Hi; apply Hd; right; exact Hi).
   destruct (decrypt (a_blob a) d) as [p|] eqn:Edec; [|apply IH; assumption].
   rewrite Hloc in Edec. assert (HDa : D (a_loc a)) by (rewrite <- Hloc; exact HD).
   pose proof (ext_handle_all sc t0 D t uuid a p E Ef HDa Edec) as H1. rewrite <- Hloc in H1.
@@ -2369,12 +2438,18 @@ Section ResponderAll.
   Qed.
 End ResponderAll.
 
+Lemma store_appointment_no_abort t a s t' : w_store_appointment t a = Abort s t' -> False.
+Proof.
+  unfold w_store_appointment. destruct (find_app (db_apps t) (app_uuid a)); [discriminate|].
+  destruct (amem (db_users t) (a_user a)); discriminate.
+Qed.
+
 Lemma w_add_appointment_abort_log sc t signer loc b delay sig site t' :
   w_add_appointment sc t signer loc b delay sig = Abort site t' -> rpc_log t' = rpc_log t.
 Proof.
   unfold w_add_appointment.
   destruct (authenticate t signer) as [u|]; [|discriminate].
-  destruct (gk_get t u) as [ui|] eqn:Eg; [|intros H; injection H as _ <-; reflexivity].
+  destruct (gk_get t u) as [ui|] eqn:Eg; [|discriminate].
   destruct (N.leb (u_expiry ui) (gk_height t)); [discriminate|].
   destruct (find_trk (db_trks t) (loc, u)); [discriminate|].
   destruct (gk_add_update_appointment t u (loc, u) (b_len b)) as [charged t1|site1 t1] eqn:Ec; cbn [bind].
@@ -2383,21 +2458,19 @@ Proof.
   apply add_update_appointment_spec in Ec. destruct Ec as [Hsame _].
   assert (Hl1 : rpc_log t = rpc_log t1) by apply Hsame.
   destruct charged as [av|]; [|discriminate].
-  set (a := mk_app loc u b delay sig (w_height t)).
-  assert (Hstore : forall t2 s2, w_store_appointment t1 a = Abort s2 t2 -> rpc_log t2 = rpc_log t1).
-  { unfold w_store_appointment. intros t2 s2. destruct (find_app (db_apps t1) (app_uuid a)); [discriminate|].
-    destruct (amem (db_users t1) (a_user a)); [discriminate|]. intros H; injection H as _ <-. reflexivity. }
+  cbv zeta. set (a := mk_app loc u b delay sig (w_height t)).
   destruct (ti_get (w_cache t1) loc) as [d|].
-  - unfold w_store_triggered. destruct (decrypt (a_blob a) d) as [p|].
-    + destruct (w_store_appointment t1 a) as [[] t2|s2 t2] eqn:Est; cbn [bind].
-      * apply store_appointment_spec in Est. subst t2.
-        destruct (r_handle_breach sc _ (app_uuid a) d p) as [s t3|s3 t3] eqn:Er; cbn [bind].
-        -- destruct (status_rejected s); cbn [gk_delete_appointments]; discriminate.
-        -- apply handle_breach_abort in Er. destruct Er as [_ [-> _]]. intros H. injection H as _ <-. cbn. symmetry. exact Hl1.
-      * intros H. injection H as _ <-. rewrite (Hstore _ _ eq_refl). symmetry. exact Hl1.
+  - unfold w_store_triggered. change (a_blob a) with b. destruct (decrypt b d) as [p|].
+    + destruct (w_store_ok t1 a) eqn:Eok; [|cbn [bind]; discriminate].
+      destruct (w_store_appointment t1 a) as [[] t2|s2 t2] eqn:Est; cbn [bind];
+        [|exfalso; eapply store_appointment_no_abort; eauto].
+      apply (store_appointment_spec _ _ _ Eok) in Est. subst t2.
+      destruct (r_handle_breach sc _ (app_uuid a) d p) as [s t3|s3 t3] eqn:Er; cbn [bind].
+      * destruct (status_rejected s); cbn [gk_delete_appointments bind]; discriminate.
+      * apply handle_breach_abort in Er. destruct Er as [_ [-> _]]. intros H. injection H as _ <-. cbn. symmetry. exact Hl1.
     + destruct (find_app (db_apps t1) (app_uuid a)); cbn [gk_delete_appointments bind]; discriminate.
-  - destruct (w_store_appointment t1 a) as [[] t2|s2 t2] eqn:Est; cbn [bind]; [discriminate|].
-    intros H. injection H as _ <-. rewrite (Hstore _ _ eq_refl). symmetry. exact Hl1.
+  - destruct (w_store_appointment t1 a) as [[] t2|s2 t2] eqn:Est; cbn [bind];
+      [destruct (w_store_ok t1 a); discriminate|exfalso; eapply store_appointment_no_abort; eauto].
 Qed.
 
 (* C02, no_send_for_purged for every outcome of the Connect step, aborts included: when the
